@@ -156,3 +156,69 @@ class World(object):
 
     def run_paths(self, st0, fname, args, max_paths=256):
         return self.ex.explore(st0, lambda ex: ex.call(fname, args), max_paths)
+
+
+# ----------------------------------------------------------------------------------------------
+# API-level harness: the registry is driven through the real masa_init / masa_select_mms IR
+
+def normalise_name(s):
+    """reference normaliser of C13: lower-case, delete every '-' and ' '"""
+    return ''.join(ch for ch in s.lower() if ch not in '- ')
+
+
+def m_masa_map(ex, args, inst):
+    """summary of MASA::masa_map(std::string*) used by Engine A (character-level behaviour of the real
+    function is the subject of C13's CBMC harness)"""
+    from models import get_str, set_str
+    p = args[0]
+    v = get_str(ex, p).v
+    if isinstance(v, str):
+        set_str(ex, p, normalise_name(v))
+    else:
+        set_str(ex, p, tm.uf('masa_map', v, sort='S'))
+    return 0
+
+
+def install_api_models(world):
+    for n in world.prog.functions:
+        if world.models.demangled(n) == 'MASA::masa_map(std::string*)':
+            world.models.overrides[n] = m_masa_map
+
+
+def api_fn(world, name, scalar, sig):
+    """linked name of MASA::<name><scalar>(sig...) e.g. sig='double, double, int'"""
+    want = 'MASA::%s<%s>(%s)' % (name, scalar, sig)
+    for n in world.prog.functions:
+        d = world.models.demangled(n)
+        if d.endswith(want) and (d == want or d[-len(want) - 1] == ' '):
+            return n
+    raise KeyError(want)
+
+
+def new_string(ex, value):
+    from models import set_str
+    r = ex.st.new_region('alloca', 8, 'harness:string')
+    set_str(ex, Ptr(r.rid, 0), value)
+    return Ptr(r.rid, 0)
+
+
+def api_init(world, st, scalar, handle, solname):
+    """run masa_init<scalar>(handle, solname) on state st (mutates st); returns list of paths if it forks"""
+    ex = world.ex
+    install_api_models(world)
+    fn = api_fn(world, 'masa_init', scalar, 'std::string, std::string')
+    ex.st = st
+    ex.schedule, ex.decisions, ex.pending = [], [], []
+    h = new_string(ex, handle)
+    s = new_string(ex, solname)
+    r = ex.call(fn, [h, s])
+    if ex.pending:
+        raise ExecError('masa_init forked on concrete arguments')
+    return r
+
+
+def selected_object(world, st, scalar):
+    """(Ptr to the selected solution object) read from the registry global"""
+    g = [n for n in st.gmap if ('masa_master_double' if scalar == 'double' else 'masa_master_longdouble') in n]
+    rid = st.gmap[g[0]]
+    return st.mem[(rid, 0)][1], rid
